@@ -2,8 +2,8 @@
    Tables regenerated from src/bartiq/integrations/latex.py on every run (GenLatex.v): the port directions that
    have a section, the attribute sections, and whether the subscript formatter falls back to text when a part
    around the first underscore is empty.  sympy's latex() on expressions is an oracle (exercised by the streams). *)
-From Coq Require Import List String Bool.
-From Bq Require Import Latex LatexFacts.
+From Coq Require Import List String Bool Permutation.
+From Bq Require Import Expr Routine Latex LatexFacts LatexWalkFacts.
 From BqGen Require Import GenLatex.
 Import ListNotations.
 Open Scope string_scope.
@@ -22,3 +22,52 @@ Print Assumptions C18_input_params_have_a_section.
 Theorem C18_names_never_raise : forall p, p <> "" -> name_raises p = false.
 Proof. exact (fun p => no_name_raises p eq_refl). Qed.
 Print Assumptions C18_names_never_raise.
+
+(* ---------- completeness of the rendering: the traversal and the assembly of the sections, translated from latex.py ---------- *)
+
+(* _walk yields every routine of the hierarchy exactly once (any depth, any fan-out) *)
+Theorem C18_walk_reaches_every_subroutine : forall r, Permutation (gen_latex_walk r) (subroutines r).
+Proof. exact walk_is_every_subroutine. Qed.
+Print Assumptions C18_walk_reaches_every_subroutine.
+
+(* unless disabled, every resource of every routine of the hierarchy has a line: the root's under its bare name, a
+   subroutine's under that subroutine's name; and there are exactly as many lines as resources *)
+Theorem C18_every_resource_has_a_line : forall r s x,
+  In s (subroutines r) -> In x (rresources s) ->
+  (s = r /\ In (None, r_name x) (gen_latex_resource_lines r true))
+  \/ In (Some (rname s), r_name x) (gen_latex_resource_lines r true).
+Proof. exact every_resource_has_a_line. Qed.
+Print Assumptions C18_every_resource_has_a_line.
+
+Theorem C18_resource_lines_count : forall r,
+  List.length (gen_latex_resource_lines r true) = resources_of (subroutines r) /\
+  List.length (gen_latex_resource_lines r false) = List.length (rresources r).
+Proof. exact (fun r => conj (resource_lines_count_all r) (resource_lines_count_root r)). Qed.
+Print Assumptions C18_resource_lines_count.
+
+(* with subroutine resources disabled the top-level routine's resources are still all there *)
+Theorem C18_root_resources_always_listed : forall r x flag, In x (rresources r) -> In (None, r_name x) (gen_latex_resource_lines r flag).
+Proof. exact root_resources_have_lines. Qed.
+Print Assumptions C18_root_resources_always_listed.
+
+(* every port of the top-level routine has a line in the section of its direction, and nothing is listed twice *)
+Theorem C18_every_port_has_a_line : forall r p, In p (rports r) -> In (p_dir p, p_name p) (gen_latex_port_lines r).
+Proof. exact every_port_has_a_line. Qed.
+Print Assumptions C18_every_port_has_a_line.
+
+Theorem C18_port_lines_count : forall r, List.length (gen_latex_port_lines r) = List.length (rports r).
+Proof. exact port_lines_count. Qed.
+Print Assumptions C18_port_lines_count.
+
+Theorem C18_every_input_param_has_an_entry : forall r x, In x (rparams r) -> In x (gen_latex_param_entries r).
+Proof. exact every_input_param_has_an_entry. Qed.
+Print Assumptions C18_every_input_param_has_an_entry.
+
+Example C18_walk_nonvacuous :
+  let leaf n := Routine n None [] [] [] [] [Build_resource "T" RAdditive (ESym "N")] [] None [] [] in
+  let mid := Routine "m" None [] [] [] [] [] [] None [] [leaf "x"; leaf "y"] in
+  let root := Routine "root" None [] [] [] [] [Build_resource "Q" ROther (ESym "N")] [] None [] [mid] in
+  map rname (gen_latex_walk root) = ["x"; "y"; "m"; "root"] /\
+  gen_latex_resource_lines root true = [(None, "Q"); (Some "x", "T"); (Some "y", "T")] /\
+  gen_latex_resource_lines root false = [(None, "Q")].
+Proof. repeat split; vm_compute; reflexivity. Qed.
